@@ -23,6 +23,8 @@ PURE_CALLS = {
     # NumPy functions that only read their arguments
     "np.count_nonzero", "np.any", "np.all", "np.abs", "np.shares_memory", "np.ptp", "np.isscalar", "np.ndim", "np.shape", "np.size",
     "np.asarray", "np.asanyarray", "np.isnan", "np.isfinite", "np.array_equal", "np.prod", "np.result_type", "np.iscomplexobj",
+    # package helpers that only read their arguments (C13-R2 checks that _split_prefix does not write its table)
+    "_split_prefix",
 }
 
 
@@ -117,9 +119,9 @@ def register_signatures(repo):
                 continue
             for f in fns:
                 a = f.node.args
-                if a.vararg or a.kwarg or a.kwonlyargs or a.posonlyargs:
+                if a.vararg or a.kwonlyargs or a.posonlyargs:
                     dup.add(q)
-                    continue
+                    continue  # (a trailing **kwargs does not affect how named parameters are bound)
                 ps = tuple(x.arg for x in a.args)
                 if q in sigs and sigs[q] != ps:
                     dup.add(q)
@@ -548,6 +550,10 @@ def summarise(fn, body=None, keep=(), limit=4000, inline=True):
             elif ev[0] == "stmt":
                 st = ev[1]
                 if isinstance(st, ast.Pass):
+                    continue
+                if isinstance(st, ast.AugAssign) and isinstance(st.target, ast.Name) and st.target.id in env and st.target.id not in impure and is_pure(st.value):
+                    # x op= e on a local with a known pure value is the re-binding x = x op e
+                    env[st.target.id] = canon_node(ast.BinOp(left=copy.deepcopy(env[st.target.id]), op=st.op, right=sub(st.value)))
                     continue
                 if isinstance(st, ast.Assign) and len(st.targets) == 1 and isinstance(st.targets[0], ast.Name) and any(isinstance(x, ast.Name) and x.id in (st.targets[0].id, "__orig_" + st.targets[0].id) for x in ast.walk(sub(st.value))):
                     nm = st.targets[0].id
